@@ -415,6 +415,13 @@ fn main() {
         "c12" => lane_c12(part, parts, seed, n, &mut acc),
         "c02" => lane_c02(part, seed, n, &mut acc),
         "c08" => lane_c08(part, seed, n, &mut acc),
+        "c13fill" => {
+            // one array filled completely and emptied again (all four implementations, encoding oracle after every update)
+            let combos = [(1u16, 0i32), (64, -88 * 64 * 3), (1, c13::min_array_start(1)), (8, 88 * 8 * 5)];
+            let (sp, st) = combos[part % combos.len()];
+            let mut r = rnd::rng(seed ^ 0xf111 ^ part as u64);
+            c13::fill_and_drain(st, sp, &mut r, 44, &mut acc);
+        }
         "c09" => lane_c09(part, parts, &mut acc),
         "c16" => lane_c16(part, seed, n, &mut acc),
         "smoke" if part % 3 == 0 => lane_smoke(seed, &mut acc),
